@@ -322,26 +322,29 @@ Definition skey_ltb (l : option str) (lex : str) (l' : option str) (lex' : str) 
 Lemma string_not_integer : str_eqb xsd_string xsd_integer = false.
 Proof. vm_compute. reflexivity. Qed.
 
-Lemma class_str_dt : forall lex dt lang, lit_class lex dt lang = CStr -> dt = None \/ dt = Some xsd_string.
+Lemma class_dt : forall lex dt lang,
+  match lit_class lex dt lang with
+  | CStr => dt = None \/ dt = Some xsd_string
+  | CInt _ => dt = Some xsd_integer
+  | CBool _ => dt = Some xsd_boolean
+  | COther => True
+  end.
 Proof.
-  intros lex dt lang H. unfold lit_class in H.
-  destruct dt as [d|]; auto. right.
-  assert (str_eqb d xsd_string = true) as E.
-  { destruct lang as [[|]|]; try discriminate;
-      destruct (str_eqb d xsd_string); auto; destruct (str_eqb d xsd_integer); try discriminate;
-      destruct (parse_int lex); discriminate. }
-  apply str_eqb_eq in E. subst. reflexivity.
+  intros lex dt lang. unfold lit_class.
+  destruct lang as [[|x l]|]; auto; destruct dt as [d|]; auto;
+    (destruct (str_eqb d xsd_string) eqn:E1; [apply str_eqb_eq in E1; subst; auto|]);
+    (destruct (str_eqb d xsd_integer) eqn:E2; [apply str_eqb_eq in E2; subst; destruct (parse_int lex); auto|]);
+    (destruct (str_eqb d xsd_boolean) eqn:E3; [apply str_eqb_eq in E3; subst; destruct (parse_bool lex); auto|]); auto.
 Qed.
 
+Lemma class_str_dt : forall lex dt lang, lit_class lex dt lang = CStr -> dt = None \/ dt = Some xsd_string.
+Proof. intros lex dt lang H. pose proof (class_dt lex dt lang) as X. rewrite H in X. exact X. Qed.
+
 Lemma class_int_dt : forall lex dt lang z, lit_class lex dt lang = CInt z -> dt = Some xsd_integer.
-Proof.
-  intros lex dt lang z H. unfold lit_class in H.
-  destruct dt as [d|]; [|destruct lang as [[|]|]; discriminate].
-  assert (str_eqb d xsd_integer = true) as E.
-  { destruct lang as [[|]|]; try discriminate;
-      destruct (str_eqb d xsd_string); try discriminate; destruct (str_eqb d xsd_integer); auto; discriminate. }
-  apply str_eqb_eq in E. subst. reflexivity.
-Qed.
+Proof. intros lex dt lang z H. pose proof (class_dt lex dt lang) as X. rewrite H in X. exact X. Qed.
+
+Lemma class_bool_dt : forall lex dt lang b, lit_class lex dt lang = CBool b -> dt = Some xsd_boolean.
+Proof. intros lex dt lang b H. pose proof (class_dt lex dt lang) as X. rewrite H in X. exact X. Qed.
 
 Lemma class_str_lang : forall lex dt lang, lit_class lex dt lang = CStr -> lang <> Some [].
 Proof. intros lex dt lang H E. subst. discriminate. Qed.
